@@ -34,7 +34,8 @@ FLOOR_KEYS = ["op:set_laws:u_laws_None:new_free", "op:set_laws:u_laws_None:new_b
 
 
 def floors(ctx):
-    f = {"evaluations": 20000 if ctx.tier == "quick" else 200000, "histories": 1000, "rule_attribute_checks": 100, "whitelists_passed_as_proxy": 10, "bursts": 500}
+    f = {"evaluations": 20000 if ctx.tier == "quick" else 200000, "histories": 1000, "rule_attribute_checks": 100, "whitelists_passed_as_proxy": 10, "bursts": 500,
+         "law_sets_built_with_positional_arguments": 100}
     for k in FLOOR_KEYS:
         f[k] = 1
     return f
@@ -61,10 +62,26 @@ def rule_attributes(ctx, rng):
             # a read-only VIEW of somebody's dict is still a live view: it must be copied like any mapping
             given = types.MappingProxyType(wl)
             ctx.count("whitelists_passed_as_proxy")
-        laws = UniverseLaws(edge_whitelist=given, **vals)
+        # the documented parameter order is (edge_whitelist, mixed_links, cycles, multipath, multiverse, applies_to):
+        # pass the first npos of them positionally, the rest by keyword
+        order = ["mixed_links", "cycles", "multipath", "multiverse"]
+        npos = (n // 2) % 6  # 0 = all by keyword, 1 = whitelist only, ... 5 = all five positional
+        if npos == 0:
+            laws = UniverseLaws(edge_whitelist=given, **vals)
+        else:
+            pos = [given] + [vals[k] for k in order[: npos - 1]]
+            built = oracles.outcome(UniverseLaws, *pos, **{k: vals[k] for k in order[npos - 1:]})
+            ctx.count("law_sets_built_with_positional_arguments")
+            if built[0] != "ok":
+                ctx.evaluated()
+                ctx.violation(f"rule_attr:construct_raised:{built[1].__name__}:passed_positionally",
+                              f"UniverseLaws with its first {npos} documented parameters passed positionally raised "
+                              f"{built[1].__name__}", {"rule_attrs": True, "n": n, "vals": vals, "positional": npos})
+                continue
+            laws = built[1]
         ctx.count("rule_attribute_checks")
         ctx.evaluated()
-        case = {"rule_attrs": True, "n": n, "vals": vals}
+        case = {"rule_attrs": True, "n": n, "vals": vals, "positional": npos}
 
         def read_wl():
             got = laws.edge_whitelist
@@ -72,7 +89,8 @@ def rule_attributes(ctx, rng):
 
         for k, v in vals.items():
             if getattr(laws, k) != v:
-                ctx.violation(f"rule_attr:readback:{k}", f"UniverseLaws({k}={v}).{k} reads {getattr(laws, k)!r}", case)
+                ctx.violation(f"rule_attr:readback:{k}" + (":passed_positionally" if npos and order.index(k) < npos - 1 else ""),
+                              f"UniverseLaws({k}={v}).{k} reads {getattr(laws, k)!r} ({npos} leading arguments passed positionally)", case)
             r = oracles.outcome(setattr, laws, k, not v)
             if not (r[0] == "exc" and r[1] is AttributeError) or getattr(laws, k) != v:
                 ctx.violation(f"rule_attr:assignable:{k}", f"assigning laws.{k} did not raise AttributeError / changed it", case)
